@@ -246,7 +246,7 @@ class SyncedList(SyncedCollection, MutableSequence):
         if isinstance(other, type(self)):
             return self() < other()
         else:
-            return self() > other
+            return self() < other
 
     def __le__(self, other):
         if isinstance(other, type(self)):
